@@ -41,10 +41,10 @@ TRUSTED_BASE = common.TRUSTED_BASE_COMMON
 ASSUMPTIONS = ["the window theorems are about choose_items, the model of _evaluate_task_actions, applied to the recorded item "
                "statuses; that the recorded statuses follow the provider's reports is tied by the correspondence",
                "reference provider protocol; the published result is the accumulated_result the provider supplies"]
-FAM = progs.family(rerun_only_when_idle=True, w_conc_var=6, p_pub_d=0.35, p_items=0.6, n_tasks=(1, 5), p_item_fail=0.12, p_fail=0.08, w_ctrl=0.8, p_intermediate=0.1,
+FAM = progs.family(rerun_only_when_idle=True, w_conc_var=6, p_pub_d=0.35, p_items=0.6, n_tasks=(1, 5), p_item_fail=0.12, p_fail=0.08, w_ctrl=1.0, p_intermediate=0.2,
                    steps=(15, 70), p_retry=0.1, p_join=0.3, w_rerun=0.3,
                    # an item that is pending/paused is not "offered or running": the window is about active items
-                   intermediate_statuses=["running", "pausing", "canceling"])
+                   intermediate_statuses=["running", "pausing", "canceling", "paused", "pending", "paused"])
 
 
 def features(sess):
